@@ -96,7 +96,7 @@ claim('C02',
       'really released - no-op drops only for homogeneous payloads) before the operator runs on the value read, elements are taken out '
       'before the every-function runs, every function of the in-place path goes through Rc::make_mut and contains no whole-payload '
       'copy or reallocation, consuming iterators drain unique handles, arguments travel by value, the drop before the operator is unconditional on '
-      'every path, no write closure snapshots the cell it is about to write, the walkers never clone the element they fetched, and no in-place function takes a second Rc handle to its payload. Env::modify_ident clones no value.',
+      'every path, no write closure snapshots the cell it is about to write, the walkers never clone the element they fetched, and no in-place function takes a second Rc handle to its payload. Env::modify_ident clones no value. An assignment evaluates nothing after its first write.',
       'dominance (must-pass-through) + forbidden-callee census over the in-place function table')
 claim('C14',
       'Decides an exact, reviewed inventory rather than panic-freedom for all inputs: every explicit panic site and every compiler-'
